@@ -150,6 +150,10 @@ fn norm_sub(s: &str) -> String {
 
 // ------------------------------------------------------------------ oracles on one PURL value
 fn value_oracles<K: Kind>(ck: &mut Ck, p: &GenericPurl<K::T>, builtin: bool, parsed_from: Option<&str>) {
+    {
+        let c = p.clone();
+        ck.req("C19", &c == p && c.cmp(p) == std::cmp::Ordering::Equal && p.qualifiers() == c.qualifiers(), "a PURL is not equal to its own clone");
+    }
     // C04 ---------------------------------------------------------------
     ck.req("C04", !p.name().is_empty(), "empty name");
     ck.req("C04", p.namespace() != Some(""), "namespace reported as empty string");
@@ -377,6 +381,22 @@ fn parse_oracles<K: Kind>(ck: &mut Ck, a: &[&str], made: &Made<K::T>) {
                 e[0] = h(&uh(&exp[0]).to_ascii_lowercase());
                 Ok(e)
             };
+            // ... and is `==` to the PURL built from those components (equality is hand-written for qualifier keys: it must agree with the fields)
+            if let Made::Purl(p) = made {
+                let e0 = expect_tuple(a[2]);
+                let mut b = Some(GenericPurlBuilder::new(p.package_type().clone(), uh(&e0[2])).with_namespace(uh(&e0[1])).with_version(uh(&e0[3])).with_subpath(uh(&e0[5])));
+                if e0[4] != "-" {
+                    for kv in e0[4].split(';') {
+                        let (k, v) = kv.split_once('=').unwrap();
+                        b = b.and_then(|x| x.with_qualifier(uh(k), uh(v)).ok());
+                    }
+                }
+                if let Some(Ok(q)) = b.map(|x| x.build()) {
+                    if q.to_string() == p.to_string() {
+                        ck.req("C02", &q == p && p == &p.clone(), "the PURL parsed from a spelling is not == the PURL built from the same components");
+                    }
+                }
+            }
             match exp {
                 Ok(e) => {
                     if main_fields(&got).as_ref() != Some(&e) {
@@ -629,6 +649,10 @@ fn c09<K: Kind>(ck: &mut Ck, a: &[&str], made: &Made<K::T>, typed: bool) {
                 ck.fail("C09", format!("build succeeded ({}) although it must be refused", got));
                 if typed && !rule_ok {
                     ck.fail("C08", "maven built without any namespace segment (the parser refuses its string form)");
+                    ck.fail("C05", "a Maven PURL without namespace is handed out instead of MissingRequiredField(Namespace)");
+                }
+                if !cs_ok {
+                    ck.fail("C05", "a PURL with a malformed checksum is handed out");
                 }
                 return;
             }
@@ -642,6 +666,12 @@ fn c09<K: Kind>(ck: &mut Ck, a: &[&str], made: &Made<K::T>, typed: bool) {
                 && p.subpath().unwrap_or("") == r.sub;
             if !same {
                 ck.fail("C09", format!("accessors {} differ from what was last set", got));
+            }
+            if gq.get("checksum") != q.get("checksum") {
+                ck.fail("C12", format!("built PURL carries checksum {:?}; the canonical text of what was last set is {:?}", gq.get("checksum"), q.get("checksum")));
+            }
+            if gq != q {
+                ck.fail("C08", format!("built PURL has qualifiers {:?}; what was set (empty values dropped, checksum canonical) is {:?}", gq, q));
             }
             if typed && p.name() != name {
                 ck.fail("C08", format!("builder: name {:?}, the type's rule gives {:?}", p.name(), name));
@@ -1104,6 +1134,15 @@ fn n_oracle(ck: &mut Ck, a: &[&str]) {
         ck.fail("C18", format!("combined {:?} split into ({:?},{:?}), expected ({:?},{:?})", s, b.parts.namespace, b.parts.name, wns, wname));
     }
     if let Ok(p) = b.build() {
+        // C08: the type's name rule applies to what the split put into the name, identically from this entry point
+        let rule = match i {
+            5 => spec_lower(wname),
+            6 => spec_pypi(wname),
+            _ => wname.to_string(),
+        };
+        if p.name() != rule {
+            ck.fail("C08", format!("builder_with_combined_name({}, {:?}) gives name {:?}, the type's rule gives {:?}", t.name(), s, p.name(), rule));
+        }
         let side = match i {
             2 | 4 => !p.name().contains('/'),
             3 => p.namespace().map(|n| !n.contains(':')).unwrap_or(false),
@@ -1113,6 +1152,15 @@ fn n_oracle(ck: &mut Ck, a: &[&str]) {
             let b2 = Purl::builder_with_combined_name(t, p.combined_name());
             if b2.parts.namespace.as_str() != p.namespace().unwrap_or("") || b2.parts.name.as_str() != p.name() {
                 ck.fail("C18", format!("combined_name {:?} does not split back into ({:?},{:?})", p.combined_name(), p.namespace(), p.name()));
+            }
+            // ... and the PURL built from it has the same namespace and name again
+            match b2.build() {
+                Ok(p2) => {
+                    if p2.namespace() != p.namespace() || p2.name() != p.name() {
+                        ck.fail("C18", format!("combined_name {:?} builds to ({:?},{:?}) instead of ({:?},{:?})", p.combined_name(), p2.namespace(), p2.name(), p.namespace(), p.name()));
+                    }
+                },
+                Err(_) => ck.fail("C18", format!("combined_name {:?} of a valid PURL does not build", p.combined_name())),
             }
         }
     }
@@ -1546,6 +1594,10 @@ pub fn check(line: &str) -> String {
                         let b2 = Purl::builder_with_combined_name(*p.package_type(), p.combined_name());
                         if b2.parts.namespace.as_str() != p.namespace().unwrap_or("") || b2.parts.name.as_str() != p.name() {
                             ck.fail("C18", format!("combined_name {:?} of {} does not split back into ({:?},{:?})", p.combined_name(), p, p.namespace(), p.name()));
+                        }
+                        match b2.build() {
+                            Ok(p2) => ck.req("C18", p2.namespace() == p.namespace() && p2.name() == p.name(), "the PURL built from combined_name() has another namespace or name"),
+                            Err(_) => ck.fail("C18", format!("combined_name {:?} of a valid PURL does not build", p.combined_name())),
                         }
                     }
                 }
